@@ -10,6 +10,7 @@ PROPS = {
         'level_note': 'Known finding F6 (state named C with generic context) is listed in known_findings.json and re-observed on every run. Ties: T2 all regions, T4 rename.',
         'modules': ['SMV.Props.C18'],
         'regions': ['FE', 'MK', 'ST', 'IH', 'CT', 'SIG', 'SUB', 'EV', 'AS', 'DN', 'ID', 'EX'],
+        't3': ['walk', 'assign'],
         't4': ['rename'],
         'design_ref': 'DESIGN.md §7 C18',
     },
@@ -29,7 +30,7 @@ PROPS = {
         'modules': ['SMV.Props.C07'],
         'regions': ['FE', 'SUB', 'IH', 'SIG'],
         't3': ['walk'],
-        't4': ['substate'],
+        't4': ['substate', 'hier-method'],
         'design_ref': 'DESIGN.md §7 C07',
     },
     'C13': {
@@ -84,6 +85,7 @@ PROPS = {
         'modules': ['SMV.Props.C09'],
         'regions': ['HD', 'EV', 'SIG'],
         't3': ['walk', 'assign'],
+        't5': True,
         'design_ref': 'DESIGN.md §7 C09',
     },
     'C10': {
@@ -220,6 +222,8 @@ FE_PARTS = {
 
 def fe_relevant(pid, diff):
     """does a front-end (T1) mismatch touch what property pid's theorems consume?"""
+    if pid in ('C18', 'C14'):
+        return True     # these consume the whole front end
     parts = diff.get('fe_parts') or ['<missing>']
     for part in parts:
         if part in EVERYTHING_FE or part not in FE_PARTS:
